@@ -88,6 +88,16 @@ def gen_case(rng):
             'dur': dur}
 
 
+def core_cases():
+    """whatever the seed: a submitting function that raises for one element, with and without a preprocessor, returned or raised"""
+    out = []
+    for has_pre, rex, k in ((True, True, 2), (True, False, 2), (False, True, 1), (False, False, 3)):
+        n = 5
+        out.append({'conc': 2, 'src': [['d', i] for i in range(n)], 'has_pre': has_pre, 'pre_fail': {}, 'call_fail': {},
+                    'submit_fail': {k: 31}, 'return_x': False, 'return_exc': rex, 'stop_after': None, 'dur': {i: 1 for i in range(n)}})
+    return out
+
+
 def code1(y):
     if isinstance(y, BaseException):
         return v_exc(getattr(y, 'code', 999))
@@ -302,7 +312,7 @@ def impl_main(argv):
     n_server = int(rest.pop(0)) if rest and rest[0].isdigit() else 6
     corpus = json.load(open(rest[0])) if rest else []
     rng = random.Random(seed)
-    cases = [c['cfg'] for c in corpus] + [gen_case(rng) for _ in range(n)]
+    cases = [c['cfg'] for c in corpus] + (core_cases() if n else []) + [gen_case(rng) for _ in range(n)]
     res = []
     import signal
 
